@@ -292,7 +292,7 @@ pub fn finish(ctx: &Ctx, ev: Ev, spec: Spec) -> i32 {
     let wall = ctx.start.elapsed().as_secs_f64();
     let mut cov: Vec<(String, J)> = vec![
         ("evaluations".into(), J::U(ev.evaluations.max(0))),
-        ("distinct_nontrivial".into(), J::U(ev.fps.len() as u64 + ev.distinct_extra)),
+        ("distinct_nontrivial".into(), J::U((ev.fps.len() as u64 + ev.distinct_extra).min(ev.evaluations))),
         ("rule".into(), J::s(spec.rule)),
         ("samples".into(), J::A(ev.samples.clone())),
     ];
@@ -335,7 +335,7 @@ pub fn finish(ctx: &Ctx, ev: Ev, spec: Spec) -> i32 {
         ctx.tier.name(),
         ctx.seed,
         ev.evaluations,
-        ev.fps.len() as u64 + ev.distinct_extra,
+        (ev.fps.len() as u64 + ev.distinct_extra).min(ev.evaluations),
         ev.nviol,
         wall
     );
